@@ -26,6 +26,7 @@ let () =
                 | "paths" -> M_paths.handle cmd args
                 | "coll" -> M_coll.handle cmd args
                 | "stored" -> M_stored.handle cmd args
+                | "ops" -> M_ops.handle cmd args
                 | _ -> failwith ("unknown module " ^ m))
              | _ -> failwith "bad line"
            with
